@@ -137,7 +137,8 @@ theorem obs1_ext (F : Facts15) {n na : Nat} {T : List Nat} {h h' : Heap} (e : Ex
   | some cl =>
     have ha := hr cl hcl
     have hat : ∀ k, attrAt h' cl.attrs k = attrAt h cl.attrs k := fun k => attrAt_ext e _ ha k
-    simp only [verdicts, hat, colH_ext e _ ha]
+    have hfun : attrAt h' cl.attrs = attrAt h cl.attrs := funext hat
+    simp only [verdicts, hfun, hat, colH_ext e _ ha]
 
 end SpyneModel.Derive
 
@@ -162,8 +163,8 @@ theorem good_opProg_derive (F : Facts15) [DeepCopy F] (hF : F.mandRule = .copies
     exact Good.map _ (good_arrayOp _ _ _ _ _ _ _) (fun a ha id e => by cases e; exact ha)
   | mandatory src =>
     exact Good.map _ ((goodMand F hF fuel).mandatory src) (fun a ha id e => by cases e; exact ha)
-  | subclass base name ns fields perm =>
-    exact Good.map _ (good_subclassOp _ _ _ _ _ _) (fun a ha id e => by cases e; exact ha)
+  | subclass base name ns fields perm attrs =>
+    exact Good.map _ (good_subclassOp _ _ _ _ _ _ _) (fun a ha id e => by cases e; exact ha)
   | append c name t => simp [Op.derives] at hop
   | insert c idx name t => simp [Op.derives] at hop
   | xmlattr src =>
